@@ -207,4 +207,92 @@ theorem relabel_inj_on_terms (m : List (Label × Label)) (s : PolyState) (hs : T
     exact ⟨e, he, hv⟩
   exact List.Nodup.map_on (fun v hv w hw h => hinj v w (hvars v hv) (hvars w hw) h) (hs.1 e he)
 
+theorem relabel_dedup_length_le (l : List Label) : (dedup l).length ≤ l.length := by
+  induction l with
+  | nil => simp [dedup]
+  | cons v t ih =>
+    simp only [dedup]
+    split
+    · simp only [List.length_cons]; omega
+    · simp only [List.length_cons]; omega
+
+theorem relabel_nodup_of_dedup_length (l : List Label) (h : ¬ (dedup l).length < l.length) : l.Nodup := by
+  induction l with
+  | nil => simp
+  | cons v t ih =>
+    simp only [dedup] at h
+    split at h
+    · exfalso
+      have := relabel_dedup_length_le t
+      simp only [List.length_cons] at h
+      omega
+    · rename_i hc
+      simp only [List.length_cons, Nat.add_lt_add_iff_right] at h
+      simp only [List.nodup_cons]
+      refine ⟨?_, ih h⟩
+      intro hm; apply hc; simpa using hm
+
+theorem mapLabel_cases (m : List (Label × Label)) (v : Label) :
+    (mapLabel m v = v ∧ ∀ p ∈ m, p.1 ≠ v) ∨ (∃ p ∈ m, p.1 = v ∧ mapLabel m v = p.2) := by
+  unfold mapLabel
+  cases h : m.find? (fun p => p.1 == v) with
+  | none =>
+    left
+    refine ⟨rfl, ?_⟩
+    intro p hp hpv
+    have := List.find?_eq_none.1 h p hp
+    simp [hpv] at this
+  | some p =>
+    right
+    have hp := List.find?_some h
+    exact ⟨p, List.mem_of_find?_eq_some h, by simpa using hp, rfl⟩
+
+/-- what `iter_safe_relabels` accepted (`safeRelabel … = .ok`) gives the label-level conditions of the energy theorem -/
+theorem safeRelabel_ok_conditions (m sub : List (Label × Label)) (s : PolyState) (h : safeRelabel m (stateVars s) = .ok sub) :
+    sub = m
+    ∧ (∀ v w, v ∈ stateVars s → w ∈ stateVars s → mapLabel m v = mapLabel m w → v = w)
+    ∧ (∀ v ∈ stateVars s, mapLabel m v ≠ v → mapLabel m v ∉ stateVars s) := by
+  unfold safeRelabel at h
+  simp only at h
+  split at h
+  · simp at h
+  · rename_i hlen
+    split at h
+    · simp at h
+    · rename_i hex
+      split at h
+      · simp at h
+      · rename_i hconf
+        simp only [Except.ok.injEq] at h
+        have hnd : (m.map (·.2)).Nodup := by
+          apply relabel_nodup_of_dedup_length
+          simpa using hlen
+        -- a new label is never an existing variable
+        have hnew : ∀ p ∈ m, p.2 ∉ stateVars s := by
+          intro p hp hin
+          simp only [List.any_eq_true, Bool.and_eq_true, Bool.not_eq_true', not_exists, not_and] at hex hconf
+          have h1 := hex p.2 (List.mem_map.2 ⟨p, hp, rfl⟩)
+          simp only [List.contains_eq_mem, decide_eq_true_eq, decide_eq_false_iff_not] at h1
+          have hold : p.2 ∈ m.map (·.1) := by
+            by_contra hno
+            exact h1 hin hno
+          have h2 := hconf p.2 hold
+          simp only [List.contains_eq_mem, decide_eq_true_eq] at h2
+          exact h2 (List.mem_map.2 ⟨p, hp, rfl⟩)
+        refine ⟨h.symm, ?_, ?_⟩
+        · intro v w hv hw hvw
+          rcases mapLabel_cases m v with ⟨hv1, _⟩ | ⟨p, hp, hpv, hv1⟩
+          · rcases mapLabel_cases m w with ⟨hw1, _⟩ | ⟨q, hq, hqw, hw1⟩
+            · rw [hv1, hw1] at hvw; exact hvw
+            · exfalso; rw [hv1, hw1] at hvw; exact hnew q hq (hvw ▸ hv)
+          · rcases mapLabel_cases m w with ⟨hw1, _⟩ | ⟨q, hq, hqw, hw1⟩
+            · exfalso; rw [hv1, hw1] at hvw; exact hnew p hp (hvw ▸ hw)
+            · rw [hv1, hw1] at hvw
+              have : p = q := List.inj_on_of_nodup_map hnd hp hq hvw
+              rw [← hpv, ← hqw, this]
+        · intro v _ hne
+          rcases mapLabel_cases m v with ⟨hv1, _⟩ | ⟨p, hp, _, hv1⟩
+          · exact absurd hv1 hne
+          · rw [hv1]; exact hnew p hp
+
 end Red
